@@ -76,6 +76,9 @@ def prep(scens):
             e["end"] = end
             e["pv"] = 0 if e["ev"] == "Reset" else last.get(e["th"], 0)
             last[e["th"]] = idx
+            e["pc"] = last.get("#connect", 0) if e["ev"] == "Cli_Connect" else 0
+            if e["ev"] == "Cli_Connect":
+                last["#connect"] = idx
             out.append(e)
         spans.append((start, end))
     return out, spans
